@@ -34,6 +34,7 @@ LIST_FLAGS = {
     "SRCS_AVX2": ["-mbmi2", "-mavx2"],
     "SRCS_AVX512": ["-mfma", "-mavx512f", "-mavx512vl", "-mavx512dq"],
 }
+SHARED_CONFIGS = ("rel", "p29", "p31")
 WRAP = ["malloc", "free", "aligned_alloc", "calloc", "realloc", "posix_memalign"]
 
 
@@ -100,7 +101,7 @@ def build(config, quiet=True):
     out = os.path.join(BUILD, th, config)
     stamp = os.path.join(out, "OK")
     res = {"dir": out, "a": os.path.join(out, "libspq.a"), "hash": th,
-           "so": os.path.join(out, "libspq.so") if config == "rel" else None}
+           "so": os.path.join(out, "libspq.so") if config in SHARED_CONFIGS else None}
     if os.path.exists(stamp):
         os.utime(os.path.join(BUILD, th))
         return res
@@ -126,7 +127,7 @@ def build(config, quiet=True):
                 die("compilation failed: " + " ".join(cmd))
     a = os.path.join(tmp, "libspq.a")
     subprocess.check_call(["ar", "rcs", a] + objs)
-    if config == "rel":
+    if config in SHARED_CONFIGS:
         so = os.path.join(tmp, "libspq.so")
         cmd = [CC, "-shared", "-o", so] + objs + ["-lm", "-Wl,-z,now",
                "-Wl," + ",".join("--wrap=" + w for w in WRAP)]
